@@ -11,6 +11,7 @@ TITLE = "internal policy accepts only consistent signatures"
 def run(prog, chk):
     algorithm_id_narrowing(prog, chk)
     shape_table(prog, chk)
+    rfc3161_table(prog, chk)
     _run(prog, chk)
 
 
@@ -99,10 +100,14 @@ def shape_table(prog, chk):
     fn = prog.fn("KSI_AggregationHashChain_calculateShape", "hashchain.c")
     cp, sp = fn.params[0]["n"], fn.params[1]["n"]
     deep = getattr(chk, "tier", "quick") == "thorough"
-    pats = {"left": lambda k: 1, "right": lambda k: 0, "alternating": lambda k: k & 1, "last-left": lambda k: 0, "first-left": lambda k: 0}
+    # isLeft is a truth value (every other user tests it with `if`): a setter may leave 2, 0x100 or -1 in it
+    pats = {"left": lambda k: 1, "right": lambda k: 0, "alternating": lambda k: k & 1, "last-left": lambda k: 0, "first-left": lambda k: 0,
+            "left stored as 2": lambda k: 2, "left stored as 0x100 / -1 / 0": lambda k: (0x100, -1, 0)[k % 3]}
     for n in (0, 1, 2, 3, 31, 32, 33, 62, 63, 64, 65, 66, 67, 200) + (tuple(range(4, 31)) if deep else ()):
         for pname, pat in sorted(pats.items()):
             if n == 0 and pname != "left":
+                continue
+            if "stored" in pname and n not in (1, 2, 3, 31, 63):
                 continue
             dirs = [pat(k) for k in range(n)]
             if pname == "last-left" and n:
@@ -132,7 +137,7 @@ def shape_table(prog, chk):
             if n <= 63:
                 want = 1 << n
                 for k in range(n):            # link k is bit k of the index (the first link is the least significant bit)
-                    want |= dirs[k] << k
+                    want |= (1 if dirs[k] else 0) << k
                 ok = q.ret == 0 and got == want
                 what = "expected status 0 and shape %#x; source: status %s, shape %s" % (want, q.ret, hex(got) if isinstance(got, int) else got)
             else:
@@ -140,3 +145,65 @@ def shape_table(prog, chk):
                 what = ("%d links need %d bits: no shape may be reported; source: status %s, shape %s"
                         % (n, n + 1, q.ret, hex(got) if isinstance(got, int) else got))
             chk.ob("C01.shape", inst, ok, what, loc=fn.loc(), fn=fn, nontrivial=(n >= 63))
+
+
+def rfc3161_table(prog, chk):
+    """The RFC3161 record's output hash: H_tst(prefix || input hash || suffix) with the TST-info algorithm, then
+    H_attr(prefix || that hash || suffix) with the signed-attributes algorithm, re-labelled with the algorithm the record's chain index
+    position dictates.  rfc3161_getOutputHash is evaluated with two DIFFERENT algorithm ids (every bundled sample uses the same one
+    twice): each hashing step must get its own prefix / suffix / algorithm, the second must hash the first one's result, and an id
+    above 0xff is refused."""
+    from ksirules.interp import TOP, Interp, Ptr, succeed_model
+    from ksirules.model import AnalysisBroken, lvalue_key, strip
+    chk.rule("C01.rfc3161", "RFC3161 record: each of the two hashing steps uses its own algorithm, prefix and suffix; ids above 0xff refused "
+                            "(decision table with distinct algorithm ids)", floor=4)
+    fn = prog.fn("rfc3161_getOutputHash", "verification_rule.c")
+    sp, op = [p["n"] for p in fn.params]
+    for tst, attr in ((1, 5), (5, 1), (1, 1), (0x100, 1), (1, 0x100), (0x101, 0x1ff)):
+        steps = []
+
+        def presuf(I, p, node, args):
+            steps.append(tuple(args[1:5]))
+            out = strip(node["a"][5])
+            I.write(p, lvalue_key(out["e"], I.fn), Ptr("H%d" % len(steps)))
+            return 0
+
+        def getu64(I, p, node, args):
+            return {"TSTALG": tst, "ATTRALG": attr}.get(getattr(args[0], "what", None), TOP)
+
+        def getimprint(I, p, node, args):
+            I.write(p, lvalue_key(strip(node["a"][1])["e"], I.fn), Ptr("IMPRINT-OF-%s" % getattr(args[0], "what", "?")))
+            I.write(p, lvalue_key(strip(node["a"][2])["e"], I.fn), 33)
+            return 0
+
+        def outalg(I, p, node, args):
+            I.write(p, lvalue_key(strip(node["a"][1])["e"], I.fn), 7)
+            return 0
+        created = []
+
+        def create(I, p, node, args):
+            created.append(tuple(args[1:4]))
+            I.write(p, lvalue_key(strip(node["a"][4])["e"], I.fn), Ptr("OUTHASH"))
+            return 0
+        ov = {"rfc3161_preSufHasher": presuf, "KSI_Integer_getUInt64": getu64, "KSI_DataHash_getImprint": getimprint,
+              "rfc3161_extractOutputHashAlgorithm": outalg, "KSI_DataHash_create": create, "KSI_DataHash_free": lambda I, p, n, a: TOP}
+        inputs = {sp: Ptr("SIG"), op: Ptr("OUT"), "SIG->ctx": Ptr("ctx"), "SIG->rfc3161": Ptr("R"), "R->tstInfoAlgo": Ptr("TSTALG"), "R->sigAttrAlgo": Ptr("ATTRALG"),
+                  "R->tstInfoPrefix": Ptr("TSTPRE"), "R->tstInfoSuffix": Ptr("TSTSUF"), "R->sigAttrPrefix": Ptr("ATTRPRE"), "R->sigAttrSuffix": Ptr("ATTRSUF"),
+                  "R->inputHash": Ptr("INPUT")}
+        I = Interp(fn, inputs=inputs, call_model=succeed_model(prog, ov), on_unknown="stop", prog=prog)
+        paths = I.run()
+        chk.paths += len(paths)
+        inst = "rfc3161 output hash[TST-info algorithm %#x, signed-attributes algorithm %#x]" % (tst, attr)
+        if len(paths) != 1 or paths[0].undetermined or paths[0].ret is TOP:
+            raise AnalysisBroken("rfc3161_getOutputHash: evaluation not determined for %s: %s" % (inst, [q.undetermined[:1] for q in paths]))
+        q = paths[0]
+        out = [t[2] for t in q.stores("*" + op)] + [t[2] for t in q.stores("OUT")]
+        if tst > 0xff or attr > 0xff:
+            ok = q.ret != 0 and not steps and not any(v not in (0, None) for v in out)
+            what = "expected a refusal before anything is hashed; source: status %s, hashing steps %s" % (hex(q.ret) if isinstance(q.ret, int) else q.ret, steps)
+        else:
+            want = [(Ptr("TSTPRE"), Ptr("INPUT"), Ptr("TSTSUF"), tst), (Ptr("ATTRPRE"), Ptr("H1"), Ptr("ATTRSUF"), attr)]
+            ok = q.ret == 0 and steps == want and created == [(Ptr("IMPRINT-OF-H2"), 33, 7)] and out[-1:] == [Ptr("OUTHASH")]
+            what = "expected steps (TST prefix, input hash, TST suffix, %#x) then (attribute prefix, first result, attribute suffix, %#x), the second result re-labelled; source: status %s, steps %s, re-labelled %s" % (
+                tst, attr, q.ret, steps, created)
+        chk.ob("C01.rfc3161", inst, ok, what, loc=fn.loc(), fn=fn, nontrivial=(tst != attr))
